@@ -1264,6 +1264,8 @@ class Session:
                     for _, st in stmt_paths(self.procs[q]._loopir_proc)
                 )
                 extra = {"pred": "config-field-passed-as-call-argument" if has else ""}
+            elif name == "lift_scope":
+                extra = {"pred": self.lift_scope_pred(pid_in)}
             elif name in ("fission", "autofission"):
                 extra = {"pred": self.fission_pred(pid_in)}
                 if name == "autofission" and not extra["pred"]:
@@ -1271,6 +1273,14 @@ class Session:
                     n_out = sum(1 for _, st in stmt_paths(self.procs[pid_out]._loopir_proc) if isinstance(st, LoopIR.For))
                     if n_out <= n_in:
                         extra["pred"] = "loop-dropped"
+            if v["sig"] in ("buffer-differs", "unreported-config-change", "config-differs"):
+                has_cfgarg = any(
+                    isinstance(st, LoopIR.Call) and any(isinstance(e, LoopIR.ReadConfig) for e in st.args)
+                    for q in (pid_in, pid_out)
+                    for _, st in stmt_paths(self.procs[q]._loopir_proc)
+                )
+                if has_cfgarg:
+                    extra = dict(extra or {}, cfgarg="config-field-passed-as-call-argument")
             if self.target_object_shared(pid_in):
                 extra = dict(extra or {}, shared="target-object-shared")
             if v["sig"] == "unbound-use":
@@ -1314,6 +1324,28 @@ class Session:
         except Exception:
             pass
         return False
+
+    def lift_scope_pred(self, pid_in):
+        """Structural class of the recorded lift_scope defect: an `if` WITHOUT else is lifted out of
+        an enclosing `if` whose other branch is not empty (DoLiftScope only builds the new else
+        part `if inner_s.orelse`, so the other branch is dropped when the inner condition fails)."""
+        try:
+            a = self.cur_rec["args"][0]
+            ir = self.procs[a["p"]]._loopir_proc
+            node, parent, which = ir, None, None
+            for attr, i in [tuple(x) for x in a["path"]]:
+                parent, which = node, attr
+                node = getattr(node, attr)[i]
+            n_lifts = int((self.cur_rec.get("kw") or {}).get("n_lifts", 1))
+            if isinstance(node, LoopIR.If) and not node.orelse and isinstance(parent, LoopIR.If):
+                other = parent.body if which == "orelse" else parent.orelse
+                if other:
+                    return "inner-if-without-else-under-if-with-other-branch"
+            if isinstance(node, LoopIR.If) and not node.orelse and n_lifts > 1:
+                return "inner-if-without-else-multi-lift"
+        except Exception:
+            pass
+        return ""
 
     def fission_pred(self, pid_in):
         """Structural class of the recorded fission defect: with respect to one of
